@@ -248,7 +248,7 @@ def path_with_chords(n, spans, wp=10, wc=11):
     return (n, es)
 
 
-def big_graphs(rng):
+def big_graphs(rng, fan=False):
     """a few graphs beyond the range of narrow index types (n > 2^8, n > 2^16), judged against the property text only (too large for the
     extracted list-based models): a long cycle with a few chords and pendant paths, randomly relabelled"""
     out = []
@@ -260,6 +260,12 @@ def big_graphs(rng):
         perm = list(range(n)); rng.shuffle(perm)
         es = [(perm[u], perm[v], w) for (u, v, w) in es]; rng.shuffle(es)
         out.append((n, es))
+    # a fan: hub 0 joined to all of 1..d, and the path 1-2-...-d; hub degree d = 65537 (beyond 16-bit degree counters)
+    if fan:
+        d = 65537
+        es = [(0, i, 1) for i in range(1, d + 1)] + [(i, i + 1, 1) for i in range(1, d)]
+        rng.shuffle(es)
+        out.append((d + 1, es))
     return out
 
 
